@@ -133,12 +133,21 @@ class TlcResult:
 
 
 def run_tlc(module, cfg, env=None, workers=1, timeout=900, cwd=TLA, extra=None, xmx="4g", metadir=None,
-            simulate=None, coverage=False, deque=False):
+            simulate=None, coverage=False, deque=False, xss=None):
+    r = _run_tlc_once(module, cfg, env, workers, timeout, cwd, extra, xmx, metadir, simulate, coverage, deque,
+                      xss or os.environ.get("VERIF_XSS", "256m"))
+    if "StackOverflowError" in r.out and xss is None:
+        # deep recursion of a contract operator on a world of a thousand nodes: same run with a 1 GB thread stack (the JVM's maximum)
+        r = _run_tlc_once(module, cfg, env, workers, timeout, cwd, extra, xmx, None, simulate, coverage, deque, "1g")
+    return r
+
+
+def _run_tlc_once(module, cfg, env, workers, timeout, cwd, extra, xmx, metadir, simulate, coverage, deque, xss):
     r = TlcResult()
     t0 = time.time()
     md = metadir or os.path.join(OUT, "tlc-md", "%s-%d-%s" % (os.path.basename(cfg), os.getpid(), uuid.uuid4().hex[:12]))
     os.makedirs(md, exist_ok=True)
-    cmd = ["java", "-XX:+UseParallelGC", "-Xss" + os.environ.get("VERIF_XSS", "256m"), "-Xmx" + xmx]
+    cmd = ["java", "-XX:+UseParallelGC", "-Xss" + xss, "-Xmx" + xmx]
     if deque:
         cmd.append("-Dtlc2.tool.queue.IStateQueue=StateDeque")
     cmd += ["-cp", JAR, "tlc2.TLC", "-noGenerateSpecTE", "-workers", str(workers), "-metadir", md, "-config", cfg]
